@@ -116,9 +116,31 @@ def field_tables(prog, rep):
         from ..trace import deep
 
         rowvars = {norm(t) for n in walk_own(fi.node) for t in ([n.target] if isinstance(n, ast.For) else (n.targets if isinstance(n, ast.Assign) and isinstance(n.value, ast.Call) and isinstance(n.value.func, ast.Attribute) and n.value.func.attr == "fetchone" else []))}
-        for k, v in zip(dicts[0].keys, dicts[0].values):
-            v = deep(v, fi, stop=rowvars)
+        # a row unpacked into names (for a, b, c in cursor / comprehension target): name -> column position
+        pos = {}
+        for n in walk_with_nested_exprs(fi.node):
+            tgts = []
+            if isinstance(n, ast.For):
+                tgts.append(n.target)
+            elif isinstance(n, (ast.DictComp, ast.ListComp, ast.GeneratorExp, ast.SetComp)):
+                tgts += [g_.target for g_ in n.generators]
+            for t in tgts:
+                if isinstance(t, (ast.Tuple, ast.List)):
+                    for i, x in enumerate(t.elts):
+                        if isinstance(x, ast.Name):
+                            pos[x.id] = i
+        items = list(zip(dicts[0].keys, dicts[0].values))
+        # keys added after the literal: d["data"] = ...
+        asg_d = parent(dicts[0])
+        if isinstance(asg_d, ast.Assign) and len(asg_d.targets) == 1 and isinstance(asg_d.targets[0], ast.Name):
+            dn = asg_d.targets[0].id
+            for n in walk_own(fi.node):
+                if isinstance(n, ast.Assign) and len(n.targets) == 1 and isinstance(n.targets[0], ast.Subscript) and norm(n.targets[0].value) == dn and isinstance(n.targets[0].slice, ast.Constant):
+                    items.append((n.targets[0].slice, n.value))
+        for k, v in items:
+            v = deep(v, fi, stop=rowvars | set(pos))
             idxs = [n.slice.value for n in ast.walk(v) if isinstance(n, ast.Subscript) and isinstance(n.value, ast.Name) and n.value.id in rowvars and isinstance(n.slice, ast.Constant)]
+            idxs += [pos[n.id] for n in ast.walk(v) if isinstance(n, ast.Name) and n.id in pos and isinstance(n.ctx, ast.Load)]
             if len(idxs) == 1 and idxs[0] < len(cols):
                 key_of_col[cols[idxs[0]]] = (k.value, norm(v))
         composite = {p: key_of_col.get(col, (None,))[0] for p, (col, _) in col_of_param.items()}
